@@ -186,6 +186,13 @@ impl Send {
         // Validate headers
         Self::check_headers(frame.fields())?;
 
+        // Interim responses may only precede the final response on a stream
+        // that is still open for sending: not after the final response, and
+        // not once the stream has been reset or closed.
+        if !stream.state.is_send_awaiting_headers() {
+            return Err(UserError::UnexpectedFrameType);
+        }
+
         debug_assert!(frame.is_informational(),
             "Frame must be informational (1xx status code) at this point. Validation should happen at the public API boundary.");
         debug_assert!(!frame.is_end_stream(),
